@@ -306,7 +306,8 @@ static void on_query(struct sim *s, const uint8_t *p, uint32_t len)
 			if (VNOW != s->t_notify)
 				viol("C17", "C17:poll-delayed-after-notify", "Serial Notify delivered at %ld, Serial Query sent at %ld", (long)s->t_notify,
 				     (long)VNOW);
-		} else if (s->t_ok && VNOW > s->t_ok + (time_t)s->sock->refresh_interval) {
+		} else if (s->t_ok && VNOW > s->t_ok + (time_t)s->sock->refresh_interval && !s->tfault_on_conn) {
+			/* (a transport that stalls in the middle of a PDU legitimately delays the poll by a receive timeout) */
 			viol("C17", "C17:poll-later-than-refresh", "last synchronisation at %ld, refresh %u, Serial Query only at %ld", (long)s->t_ok,
 			     s->sock->refresh_interval, (long)VNOW);
 		}
